@@ -34,6 +34,12 @@ def run(ctx):
     # cycle boundaries (a short last slice drops the sample that meets the end-edge criterion)
     from . import c15
     c15.rule_cache(ctx, 'C13.R4')
+    # the segments the criteria are applied to are the wrap-delimited ones (default threshold 1.5 pi), taken from
+    # canonicalised phase and mask that are compared on the sample axis
+    from . import c12, c19, cyclevec
+    c12.rule_unfiltered(ctx, 'C13.R5', cyclevec.get(ctx, False, False))
+    c12.rule_canonical_inputs(ctx, 'C13.R5')
+    c19.rule_ensure_sites(ctx, 'C13.R5', only={cyclevec.GCV})
 
 
 def rule_criteria(ctx, rid):
